@@ -825,65 +825,6 @@ pub fn ip_v6_raw<const P: u8>() {
     // fixed in /repo ("fix: Ipv6Extensions::write no longer panics ..."): 0 is a placeholder and is written as is
     witness!(last == 0, "next_header_0_placeholder");
     let e = emit_ok!(P, N, mk(), [IpNumber(last)], &pd[..pn]);
-    assert!(e.size == 24 + pn);
-    let b = &e.b[..];
-    assert!(b[0] == 0x46, "version 4, IHL 6");
-    assert!(b[1] == (dscp << 2) | ecn, "DSCP / ECN");
-    assert!(usize::from(be16(b, 2)) == e.n, "IPv4 total length == real size");
-    assert!(be16(b, 4) == ident, "identification");
-    assert!(be16(b, 6) == (u16::from(df) << 14) | (u16::from(mf) << 13) | fo, "flags / fragment offset");
-    assert!(b[8] == ttl && b[9] == last, "ttl, protocol == supplied last next header");
-    assert!(eq4(b, 12, src) && eq4(b, 16, dst) && eq4(b, 20, od), "addresses, options");
-    ref_ipv4_checksum(b, 0, 24);
-    assert!(payload_at(b, 24, &pd, pn), "payload");
-    // strict decoders
-    let h = match Ipv4HeaderSlice::from_slice(&e.b[..e.n]) { Ok(v) => v, Err(_) => panic!("strict: ipv4 header") };
-    assert!(eq4(&h.source(), 0, src) && eq4(&h.destination(), 0, dst) && h.ttl() == ttl && h.identification() == ident);
-    assert!(h.dont_fragment() == df && h.more_fragments() == mf && h.fragments_offset().value() == fo);
-    assert!(h.protocol() == IpNumber(last) && usize::from(h.total_len()) == e.n);
-    let o = h.options();
-    assert!(o.len() == 4 && o[0] == od[0] && o[1] == od[1] && o[2] == od[2] && o[3] == od[3]);
-    // 51 (AH) announces an IPv4 extension header inside the caller's payload: not the builder's business
-    if last != 51 {
-        let ip = match Ipv4Slice::from_slice(&e.b[..e.n]) { Ok(v) => v, Err(_) => panic!("strict: ipv4") };
-        assert!(ip.payload().ip_number == IpNumber(last));
-        assert!(ip.payload().fragmented == (mf || fo != 0));
-        assert!(is_payload(ip.payload().payload, &pd, pn));
-    }
-}
-
-/// (start at) ip(IpHeaders::Ipv6(every field symbolic, no extension header)) -> write(last next header)
-pub fn ip_v6_raw<const P: u8>() {
-    const N: usize = 40 + PAY + 2;
-    let (tc, flow): (u8, u32) = (any(), any());
-    assume(flow < 0x10_0000);
-    let (src, dst, hop): ([u8; 16], [u8; 16], u8) = (any(), any(), any());
-    let (junk_len, junk_next): (u16, u8) = (any(), any());
-    let last: u8 = any();
-    let (pd, pn) = payload();
-    let mk = || {
-        let h = Ipv6Header {
-            traffic_class: tc,
-            flow_label: match Ipv6FlowLabel::try_new(flow) { Ok(v) => v, Err(_) => panic!("flow") },
-            payload_length: junk_len,
-            next_header: IpNumber(junk_next),
-            hop_limit: hop,
-            source: src,
-            destination: dst,
-        };
-        PacketBuilder::ip(IpHeaders::Ipv6(h, Default::default()))
-    };
-    if last == 0 {
-        // GENUINE DEFECT (reproduced natively): with no hop-by-hop header in the extensions and last next
-        // header 0, `Ipv6Extensions::write_internal` does `self.hop_by_hop_options.as_ref().unwrap()` ->
-        // panic "called `Option::unwrap()` on a `None` value" in write / write_to_slice / write_to_vec
-        // (etherparse/src/net/ipv6_exts.rs:679), although its own comment further down allows 0 as a
-        // placeholder next header. Routed to a finding key (HARNESS_GUIDE rule 7); `size` is still checked.
-        assert!(mk().size(pn) == 40 + pn);
-        witness!(true, "KF:c10-ipv6-raw-next-header-0-unwrap");
-        return;
-    }
-    let e = emit_ok!(P, N, mk(), [IpNumber(last)], &pd[..pn]);
     assert!(e.size == 40 + pn);
     let b = &e.b[..];
     assert!(be32(b, 0) == 0x6000_0000 | (u32::from(tc) << 20) | flow, "version, traffic class, flow label");
